@@ -254,6 +254,8 @@ class NDNApp:
                 return
             if lp_pkt.nack is not None:
                 nack_reason = lp_pkt.nack.nack_reason
+                if nack_reason is None:
+                    nack_reason = ndnlp.NackReason.NONE
             else:
                 nack_reason = None
             pit_token = lp_pkt.pit_token
